@@ -24,6 +24,12 @@ pub use filter::{
     FilterConfig,
 };
 pub use recv::UnrecognizedFrame;
+/// Verification hook: the crate-private filter types for the facades in `crate::verif`.
+#[cfg(discv5_verif)]
+pub(crate) use filter::{
+    rate_limiter::{Limiter as VerifLimiter, RateLimitedErr as VerifRateLimitedErr},
+    Filter as VerifFilter,
+};
 
 /// Configuration for the sockets to listen on.
 ///
